@@ -165,6 +165,7 @@ func runC17(c *Ctx) {
 		}
 	}
 	c17RunLs(c)
+	c17ListedLongNames(c)
 	c17Real(c)
 }
 
